@@ -52,7 +52,7 @@ type isoScript struct {
 	Enc     iscp.EncodingName
 	PingIv  time.Duration
 	PingTo  time.Duration
-	Focus   int // stream whose behaviour is compared in differential mode
+	Focus   int  // stream whose behaviour is compared in differential mode
 	Reuse   bool // the broker reuses the stream id alias of a closed upstream
 	HasCut  bool
 }
